@@ -34,6 +34,32 @@ inspected.  Case kinds:
          find_files_paragraph and every matches() as for every parsed
          document; ~30% of the parsed starts of build histories carry
          such separators too          (M.ws.order, M.ws.find, M.match, M.ws-build.order)
+  doc+seps+strict=False  the same class handed to Copyright(..., strict=False), with gaps of
+         SEVERAL separator lines more often (2..4 lines: empty line followed by a
+         blank / tab line and vice versa, 'ew' 'we' 'ewe' 'wew' 'eew' 'ewew' ...);
+         also ~35% of the whitespace-separated parsed starts of build histories.
+         Same oracle, same control document (parsed with strict=False too); keys get
+         the suffix /parsed-with-strict=False    (M.ws-ns.order, M.ws-ns.find, M.match)
+  long   paragraphs BUILT through the API with LONG pattern lists: FilesParagraph.create
+         (list) and `files = list` (on a free paragraph / on a paragraph already in
+         the document, after the paragraph answered for its first, short list) with
+         lists whose space-joined text is 100..600 characters (many quilt-style
+         hyphenated patch names 'debian/patches/fix-foo-bar-7.patch', paths with
+         '*' '?' next to hyphens, escapes, other punctuation), a SINGLE pattern of
+         100..600 characters (path of hyphenated components / one unbroken word,
+         with and without wildcards), and lists of exactly 72..88 characters; later
+         paragraphs repeat patterns of earlier ones (the LAST must win).  Names: the
+         literal expansion of the patterns (for a wildcard-free pattern the name
+         equal to the pattern), preferring the patterns that straddle column 70..80
+         (x k) of the joined text; the two pieces a cut behind one of its hyphens
+         / at column 70..80 of a long pattern would leave; two neighbours glued
+         together; one edit.  Stages: built -> [one list re-assigned to a list that
+         differs in ONE character behind offset 90] -> dump() (returned / written to
+         a file object) and re-parse (7 source kinds, strict and strict=False).  At
+         every stage: `files` against the list given (M.long.files - not a verdict by
+         itself, see ASSUMPTIONS), every paragraph's matches() against the glob model,
+         find_files_paragraph against the last-match rule
+                          (M.long.files, M.long.find, M.long.reparse, M.long.reparse.find, M.match, M.stale)
   raw    patterns with blanks / tabs / newlines, which cannot be
          written in a Files field: globs_to_re driven through the
          real FilesParagraph.matches of a subclass whose `files`
@@ -71,6 +97,14 @@ Mutants of the separator class (repo tests still 234 passed), all exit 1 with
   Copyright() passes strict={'whitespace-separates-paragraphs': False}
   Copyright() drops blank-only lines from list input ("normalise")
 
+Mutants of the long-list / non-strict classes (repo tests still 234 passed), all exit 1, none seen by the other classes:
+  _SpaceSeparated.to_str folds with textwrap.wrap(.., 79)         matches-*-name/long-pattern-list-built-through-api/files-differs-from-the-list-given
+  Copyright.dump() re-flows Files lines longer than 79 columns    matches-*-name/long-pattern-list-after-dump-and-reparse/files-differs-..
+  _SpaceSeparated.from_str = re.findall(r'\\S{1,128}', s)          matches-*-name/long-pattern-list-built-through-api/files-differs-..
+  files_pattern cache keyed on self['files'][:100]                stale-pattern-after-files-reassigned/long-pattern-list-re-assigned
+  Copyright(strict=False) parses with whitespace-separates-paragraphs False
+                                                                  files-paragraph-lost-at-whitespace-only-separator/parsed-with-strict=False
+
 Mutants of this class tried on a scratch copy (repo tests still 234 passed):
   find caches list(all_files_paragraphs()) at first use          caught (find-misses-matching-paragraph, find-first-match-wins)
   add_files_paragraph: `if not last_i: insert(0, ..)`            caught (files-paragraph-order-differs-from-documented-insertion)
@@ -102,6 +136,17 @@ RULE = ('Seeded pattern lists (1..3, thorough 1..4 patterns of 1..5, thorough 1.
         'run header/Files, Files/Files, Files/License, License/Files; Files field first, last or in the middle of its paragraph, '
         'one-line and continuation-line values; sources list of str with and without line ends, list of bytes, StringIO, BytesIO, '
         'on-disk file in text and binary mode; the same separators in ~30% of the parsed starts of build histories); '
+        'THE SAME CLASS PARSED WITH Copyright(..., strict=False), gaps of 2..4 separator lines in ~75% of the gaps (empty line followed '
+        'by a blank / tab line and vice versa, e-w, w-e, e-w-e, w-e-w, e-e-w, e-w-e-w, ...), and ~35% of the whitespace-separated parsed '
+        'starts of build histories; '
+        'PARAGRAPHS BUILT THROUGH THE API WITH LONG PATTERN LISTS (1..3, thorough 1..4 such paragraphs + License paragraphs, 30% behind a '
+        'short catch-all paragraph; FilesParagraph.create(list), files = list on a free paragraph and on a paragraph already in the '
+        'document; space-joined length 100..600 - many hyphenated quilt-style patch names, paths with * ? next to hyphens, escapes, '
+        'other punctuation - or ONE pattern of 100..600 characters, or exactly 72..88 characters; 60% of the later lists repeat 1..3 '
+        'patterns of an earlier one; 4% carry an illegal escape; names = literal expansions of up to 4..5 patterns per list, those '
+        'straddling column 70..80 (x k) of the joined text first, + the two pieces left by a cut behind a hyphen / at column 70..80 of a '
+        'long pattern + two neighbours glued + one edit; stages built / one list re-assigned to a list differing in one character '
+        'behind offset 90 (45%) / dump() then re-parse through 7 source kinds, 30% with strict=False); '
         'histories of files re-assignments; BUILD HISTORIES through the public API '
         '(start: empty Copyright() or a parsed document with 0..4 Files paragraphs; 2..12 steps of add_files_paragraph / '
         'add_license_paragraph / files re-assignment, half of the added lists overlapping a list already in the document; '
@@ -131,6 +176,23 @@ ASSUMPTIONS = ['vp.models.globmatch is a faithful model of the copyright-format 
                'was written while the Files paragraphs agree change no resolution: counted as ws:note:* / ws_notes, never a violation '
                'of this property (a build history is then not driven from that start); (c) bytes sources are UTF-8, the default '
                'encoding of Copyright()',
+               'Copyright(..., strict=False): the parameter is documented as "raise if format errors are detected"; the documents of this '
+               'class are well formed apart from the whitespace-only separator lines, so the document is taken to be the same document as '
+               'with strict=True (and as with empty separator lines).  Same guards as above; the control document is parsed with '
+               'strict=False as well, so anything strict=False does to EVERY document is harness sanity, not a finding.  Warnings emitted '
+               'during a non-strict parse are counted (ns:note:warning:*), never judged',
+               'long pattern lists built through the API: domain = legal (4%: one illegal), non-empty, whitespace-free patterns of printable '
+               'ASCII; no limit on the number of patterns or on the length of a pattern is documented, so none is assumed.  The property '
+               'talks about matches() / find_files_paragraph, not about the `files` tuple or the dumped text: a `files` tuple that differs '
+               'from the list given is NOT reported by itself - the patterns that differ are turned into names, judged like every other '
+               'name, and only a wrong matches() / find_files_paragraph answer is a violation (its key then ends in '
+               '/files-differs-from-the-list-given); a difference without any observed wrong answer is a note (long:note:*, long_notes). '
+               'dump()-then-parse of the built document is judged the same way (as for build histories: through the resolution of names, '
+               'not through field texts, which is C17); a dump that does not re-parse or re-parses to other Files paragraph ids is '
+               'reported.  Oracle for this class: position-set matcher cross-checked on every evaluation against a '
+               'single-backtrack-point matcher, and against the edit-distance DP where affordable (name length x total pattern length '
+               '<= 5000; every 16th evaluation up to 40000); every name of the class is derived from a pattern of the case, so an '
+               'evaluation counts as non-trivial when the list has >= 2 patterns or a wildcard',
                'names are str; patterns containing whitespace are only reachable through globs_to_re and are observed '
                'through the real FilesParagraph.matches of a subclass overriding the `files` property',
                'build histories: "the last Files paragraph of the document as it is now" is read off an independent model of '
